@@ -24,12 +24,18 @@ Section RunSound.
   Hypothesis HVs : fixedpt (nS M) (T M g) Vs.
   Let gle : 0 <= g. Proof. lra. Qed.
 
-  Lemma vi_threshold_disc : vi_threshold g eps == thr g eps.
+  (* about the GENERATED threshold formulas *)
+  Lemma vi_threshold_disc t : vi_threshold t g eps == thr g eps.
   Proof.
-    unfold vi_threshold, thr. destruct (Qeq_bool g 1) eqn:E.
-    - apply Qeq_bool_eq in E. lra.
-    - apply Qred_correct.
+    unfold vi_threshold, thr. rewrite Qred_correct.
+    destruct t; unfold GenThreshold.thr_vi_span, GenThreshold.thr_vi_max_diff;
+    (destruct (Qeq_bool g (1#1)) eqn:E; simpl;
+     [apply Qeq_bool_eq in E; lra|reflexivity]).
   Qed.
+  Lemma measure_span U V : measure Span U V = span_diff U V.
+  Proof. reflexivity. Qed.
+  Lemma measure_maxdiff U V : measure MaxDiff U V = maxabs_diff U V.
+  Proof. reflexivity. Qed.
 
   Lemma policy_valid V : valid_policy M (policy_fun (policy_of M g V)).
   Proof. intros s Hs. unfold policy_fun. now apply (policy_greedy_l M g WF). Qed.
@@ -47,8 +53,8 @@ Section RunSound.
     destruct (loop vist (vi_step g eps (sweep M g) t) v_iter ckpt freq k st0 []) as [[st1 conv] sv] eqn:L.
     injection H as <- -> _.
     destruct (loop_converged_last _ _ _ _ _ _ _ _ _ _ L) as [prev Hp].
-    unfold vi_step in Hp. injection Hp as H1 H2.
-    exists (v_vals prev). subst st1. simpl. repeat split.
+    unfold vi_step, vi_sweep_step in Hp. injection Hp as H1 H2.
+    exists (v_vals (vi_incr prev)). subst st1. simpl. repeat split.
     apply Qltb_true in H2. rewrite vi_threshold_disc in H2. exact H2.
   Qed.
 
@@ -100,7 +106,7 @@ Section RunSound.
     measure t (sweep_pi M g P vals) vals < thr g eps.
   Proof.
     revert v0; induction k as [|k IH]; intros v0 H; simpl in H; [discriminate|].
-    destruct (Qltb (measure t (sweep_pi M g P v0) v0) (vi_threshold g eps)) eqn:E.
+    destruct (Qltb (measure t (sweep_pi M g P v0) v0) (vi_threshold t g eps)) eqn:E.
     - injection H as <-. apply Qltb_true in E. now rewrite vi_threshold_disc in E.
     - now apply IH in H.
   Qed.
@@ -134,15 +140,15 @@ Section RunSound.
     injection H as <- -> _. unfold pi_finish.
     (* invariant: policy length *)
     assert (INV : forall j, length (pi_pol (steps pist (pi_step g eps (policy_of M g) (sweep_pi M g) t me reset V0) j st0)) = nS M).
-    { induction j as [|j IHj]; [exact HL0|]. simpl. unfold pi_step at 1.
+    { induction j as [|j IHj]; [exact HL0|]. simpl. unfold pi_step at 1. unfold pi_improve_step.
       destruct (eval_loop _ _ _ _ _ _ _) as [vals ok]. simpl. apply policy_of_length. }
     destruct (loop_spec _ _ _ _ _ _ _ _ _ _ _ L) as [j [Hj [Hst [_ [Hc _]]]]].
     destruct (Hc eq_refl) as [Hj0 Hl].
     set (prev := steps pist (pi_step g eps (policy_of M g) (sweep_pi M g) t me reset V0) (j - 1) st0) in *.
     assert (E1 : st1 = fst (pi_step g eps (policy_of M g) (sweep_pi M g) t me reset V0 prev)).
     { rewrite Hst. replace j with (S (j - 1)) at 1 by lia. reflexivity. }
-    unfold pi_step in E1, Hl.
-    destruct (eval_loop g eps (sweep_pi M g) t me (pi_pol prev) (if reset then V0 else pi_vals prev)) as [vals ok] eqn:EL.
+    unfold pi_step, pi_improve_step in E1, Hl.
+    destruct (eval_loop g eps (sweep_pi M g) t me (pi_pol (pi_incr prev)) (if reset then V0 else pi_vals (pi_incr prev))) as [vals ok] eqn:EL.
     simpl in E1, Hl. rewrite E1. simpl.
     apply Nat.eqb_eq in Hl. apply count_changed_zero in Hl.
     2:{ rewrite policy_of_length. symmetry. apply INV. }
